@@ -160,10 +160,14 @@ class CacheView(Table):
 
             # serve the remainder from the inner iterator
             it = iter(self.inner)
-            for row in islice(it, len(self.cache), None):
-                # maybe there's more room in the cache?
-                if not self.n or len(self.cache) < self.n:
+            position = len(self.cache)
+            for row in islice(it, position, None):
+                # maybe there's more room in the cache? N.B., only append if
+                # no other iterator has cached this row already
+                if position == len(self.cache) \
+                        and (not self.n or len(self.cache) < self.n):
                     self.cache.append(row)
+                position += 1
                 yield row
 
             # does the cache contain a complete copy of the inner table?
